@@ -1054,3 +1054,175 @@ Proof.
   exists [0; 0], (1, -1), [1; 2]. vm_compute. split; [auto 10|]. split; [reflexivity|].
   intros d' H. repeat (destruct H as [<-|H]; [discriminate|]). destruct H.
 Qed.
+
+(* ================================================================== 2d. the whole connection table of an orthogonal cell *)
+Lemma conns_2d_In torus dims tbl c k c' :
+  In (k, c') (conns_2d torus dims tbl c) <->
+  exists a b, k = [a; b] /\ In (a, b) tbl /\ connect_2d torus dims c (a, b) = Some c'.
+Proof.
+  unfold conns_2d. rewrite in_flat_map. split.
+  - intros [[a b] [Hd Hin]]. destruct (connect_2d torus dims c (a, b)) as [n|] eqn:E; [|destruct Hin].
+    destruct Hin as [[= <- <-]|[]]. exists a, b. auto.
+  - intros [a [b [-> [Hd Hc]]]]. exists (a, b). split; [exact Hd|]. rewrite Hc. left. reflexivity.
+Qed.
+
+Lemma len2 {A} (l : list A) : length l = 2%nat -> exists x y, l = [x; y].
+Proof. destruct l as [|x [|y [|z t]]]; simpl; intros H; try discriminate. eauto. Qed.
+
+Lemma zip_with_len2 {A B C} (f : A -> B -> C) a b : length a = length b -> length (zip_with f a b) = length b.
+Proof. intros H. rewrite zip_length by exact H. exact H. Qed.
+
+(* Moore / von Neumann grid of ANY dimension vector: the connections of cell c are exactly
+   (d, c+d wrapped or plain) for the offsets d of Chebyshev / Manhattan norm 1 whose target lies in
+   the grid - through the 2-D tables when there are two axes, the n-D construction otherwise *)
+Lemma orth_conns_spec : tables_2d_ok = true ->
+  forall moore torus dims c d c', length c = length dims ->
+  (In (d, c') (orth_conns moore torus dims c) <->
+   length d = length dims /\ (if moore then norm_inf d else norm_1 d) = 1 /\
+   c' = (if torus then wrap dims (vadd c d) else vadd c d) /\ in_bounds dims c' = true).
+Proof.
+  intros Hok moore torus dims c d c' Hlen.
+  destruct (tables_2d_of_check Hok) as [Hm [Hv _]].
+  unfold orth_conns. destruct (length dims =? 2)%nat eqn:E2.
+  - apply Nat.eqb_eq in E2. destruct (len2 dims E2) as [h [w ->]].
+    rewrite E2 in Hlen. destruct (len2 c Hlen) as [i [j ->]].
+    rewrite conns_2d_In. split.
+    + intros [a [b [-> [Hin Hc]]]]. rewrite connect_2d_eq_nd in Hc. apply connect_nd_spec in Hc.
+      split; [reflexivity|]. split; [|exact Hc].
+      destruct moore; [apply Hm in Hin|apply Hv in Hin]; simpl; lia.
+    + intros [Hl [Hn Hc]]. destruct (len2 d Hl) as [a [b ->]]. exists a, b. split; [reflexivity|].
+      split; [|rewrite connect_2d_eq_nd; apply connect_nd_spec; exact Hc].
+      destruct moore; [apply Hm|apply Hv]; simpl in Hn; lia.
+  - rewrite conns_nd_In, connect_nd_spec.
+    destruct moore; [rewrite moore_offsets_spec|rewrite vn_offsets_spec]; tauto.
+Qed.
+
+(* ================================================================== 2e. cell ids are positions in all_cells *)
+Definition dims_prod (dims : list Z) : Z := fold_right Z.mul 1 dims.
+
+Lemma flat_map_const_length {A B} (f : A -> list B) l L :
+  (forall x, In x l -> length (f x) = L) -> length (flat_map f l) = (length l * L)%nat.
+Proof.
+  induction l as [|a l IH]; simpl; intros H; [reflexivity|].
+  rewrite app_length, IH by auto. rewrite (H a) by auto. reflexivity.
+Qed.
+
+Lemma zrange_length lo hi : length (zrange lo hi) = Z.to_nat (hi - lo + 1).
+Proof. unfold zrange. rewrite map_length, seq_length. reflexivity. Qed.
+
+Lemma dims_prod_pos dims : Forall (fun d => 0 < d) dims -> 0 < dims_prod dims.
+Proof. induction 1; simpl; lia. Qed.
+
+Lemma all_coords_length dims : Forall (fun d => 0 < d) dims ->
+  length (all_coords dims) = Z.to_nat (dims_prod dims).
+Proof.
+  unfold all_coords. induction 1 as [|d dims Hd Hf IH]; [reflexivity|].
+  cbn [map product_ dims_prod fold_right].
+  rewrite (flat_map_const_length _ _ (Z.to_nat (dims_prod dims))).
+  - rewrite zrange_length. pose proof (dims_prod_pos dims Hf). unfold dims_prod in *. nia.
+  - intros x _. rewrite map_length. exact IH.
+Qed.
+
+Lemma nth_error_blocks {A B} (f : A -> list B) L : forall l i j x,
+  (forall y, In y l -> length (f y) = L) ->
+  nth_error l i = Some x -> (j < L)%nat ->
+  nth_error (flat_map f l) (i * L + j) = nth_error (f x) j.
+Proof.
+  induction l as [|a l IH]; intros [|i] j x Hlen Hn Hj; simpl in *; try discriminate.
+  - inversion Hn; subst. rewrite nth_error_app1; [reflexivity|]. rewrite Hlen by auto. exact Hj.
+  - rewrite nth_error_app2 by (rewrite Hlen by auto; lia).
+    rewrite Hlen by auto. replace (L + i * L + j - L)%nat with (i * L + j)%nat by lia.
+    apply IH; auto.
+Qed.
+
+Lemma zrange_nth d x : 0 <= x < d -> nth_error (zrange 0 (d - 1)) (Z.to_nat x) = Some x.
+Proof.
+  intros H. unfold zrange. rewrite nth_error_map.
+  rewrite (nth_error_nth' _ 0%nat) by (rewrite seq_length; lia).
+  rewrite seq_nth by lia. simpl. f_equal. lia.
+Qed.
+
+Lemma coord_id_acc dims : forall c acc, length c = length dims ->
+  fold_left (fun a p => a * snd p + fst p) (combine c dims) acc = acc * dims_prod dims + coord_id dims c.
+Proof.
+  unfold coord_id. induction dims as [|d dims IH]; intros [|x c] acc Hl; simpl in *; try discriminate; [lia|].
+  rewrite (IH c (acc * d + x)) by congruence. rewrite (IH c x) by congruence.
+  fold (dims_prod dims). ring.
+Qed.
+
+Lemma coord_id_cons d dims x c : length c = length dims ->
+  coord_id (d :: dims) (x :: c) = x * dims_prod dims + coord_id dims c.
+Proof.
+  intros Hl. unfold coord_id at 1. simpl. rewrite coord_id_acc by exact Hl. ring.
+Qed.
+
+(* the id of an in-grid coordinate is below the number of cells, and all_cells holds that coordinate there *)
+Lemma coord_id_index dims : Forall (fun d => 0 < d) dims ->
+  forall c, length c = length dims -> in_bounds dims c = true ->
+  0 <= coord_id dims c < dims_prod dims /\
+  nth_error (all_coords dims) (Z.to_nat (coord_id dims c)) = Some c.
+Proof.
+  induction 1 as [|d dims Hd Hf IH]; intros [|x c] Hl Hb; simpl in Hl; try discriminate.
+  - split; [unfold coord_id; simpl; lia|reflexivity].
+  - unfold in_bounds in Hb. simpl in Hb. rewrite !andb_true_iff in Hb. destruct Hb as [[Hb1 Hb2] Hb3].
+    apply Z.leb_le in Hb1. apply Z.ltb_lt in Hb2.
+    destruct (IH c) as [[Hi1 Hi2] Hnth]; [congruence|exact Hb3|].
+    rewrite coord_id_cons by congruence. pose proof (dims_prod_pos dims Hf) as Hpos.
+    split; [cbn [dims_prod fold_right]; fold (dims_prod dims); nia|].
+    unfold all_coords. cbn [map product_]. fold (all_coords dims).
+    replace (Z.to_nat (x * dims_prod dims + coord_id dims c))
+      with (Z.to_nat x * Z.to_nat (dims_prod dims) + Z.to_nat (coord_id dims c))%nat by nia.
+    rewrite (nth_error_blocks _ (Z.to_nat (dims_prod dims)) _ _ _ x).
+    + rewrite nth_error_map. exact (f_equal (option_map (cons x)) Hnth).
+    + intros y _. rewrite map_length. apply all_coords_length. exact Hf.
+    + apply zrange_nth. lia.
+    + lia.
+Qed.
+
+(* the whole connection table of a hex cell *)
+Lemma hex_conns_spec : hex_tables_ok = true ->
+  forall torus h w i j k c',
+  (In (k, c') (hex_conns torus [h; w] [i; j]) <->
+   exists di dj, k = [di; dj] /\ cube_dist i j (i + di) (j + dj) = 1 /\
+     c' = (if torus then wrap [h; w] (vadd [i; j] [di; dj]) else vadd [i; j] [di; dj]) /\
+     in_bounds [h; w] c' = true).
+Proof.
+  intros Hok torus h w i j k c'. unfold hex_conns. rewrite conns_2d_In. split.
+  - intros [a [b [-> [Hin Hc]]]]. exists a, b. split; [reflexivity|].
+    split; [apply (hex_touching_of_tables Hok); exact Hin|].
+    rewrite connect_2d_eq_nd in Hc. apply connect_nd_spec in Hc. exact Hc.
+  - intros [a [b [-> [Hd Hc]]]]. exists a, b. split; [reflexivity|].
+    split; [apply (hex_touching_of_tables Hok); exact Hd|].
+    rewrite connect_2d_eq_nd. apply connect_nd_spec. exact Hc.
+Qed.
+
+(* ================================================================== 4b. the in-circle test is geometric *)
+(* circumcentre of a, b, c = (circ_nx, circ_ny) / (2 * orient a b c); distances below are scaled by (2 * orient)^2 *)
+Definition sq (p : pt) : Z := fst p * fst p + snd p * snd p.
+Definition circ_nx (a b c : pt) : Z := sq a * (snd b - snd c) + sq b * (snd c - snd a) + sq c * (snd a - snd b).
+Definition circ_ny (a b c : pt) : Z := sq a * (fst c - fst b) + sq b * (fst a - fst c) + sq c * (fst b - fst a).
+Definition sdist2 (a b c q : pt) : Z :=
+  let o2 := 2 * orient a b c in
+  (o2 * fst q - circ_nx a b c) * (o2 * fst q - circ_nx a b c) +
+  (o2 * snd q - circ_ny a b c) * (o2 * snd q - circ_ny a b c).
+
+Lemma circ_equidistant a b c : sdist2 a b c b = sdist2 a b c a /\ sdist2 a b c c = sdist2 a b c a.
+Proof. unfold sdist2, circ_nx, circ_ny, orient, sq. split; ring. Qed.
+
+Lemma incircle_identity a b c p :
+  sdist2 a b c a - sdist2 a b c p = 4 * orient a b c * incircle_det a b c p.
+Proof. unfold sdist2, circ_nx, circ_ny, orient, incircle_det, sq. ring. Qed.
+
+Lemma incircle_swap a b c p : incircle_det a c b p = - incircle_det a b c p.
+Proof. unfold incircle_det. ring. Qed.
+
+(* strictly_inside a b c p  <->  p is strictly nearer to the circumcentre of a, b, c than a (b, c) is *)
+Lemma strictly_inside_geometric a b c p : orient a b c <> 0 ->
+  (strictly_inside a b c p = true <-> sdist2 a b c p < sdist2 a b c a).
+Proof.
+  intros Ho. pose proof (incircle_identity a b c p) as Hid. unfold strictly_inside.
+  destruct (orient a b c >? 0) eqn:E1.
+  - rewrite Z.gtb_lt. apply Z.gtb_lt in E1. split; intros H; nia.
+  - destruct (orient a b c <? 0) eqn:E2; [|lia].
+    rewrite Z.gtb_lt, incircle_swap. apply Z.ltb_lt in E2. split; intros H; nia.
+Qed.
